@@ -188,8 +188,29 @@ def body(c, ctx):
                 ctx.fail('affine_subset_at_construction', f'{name}: shapes {a.shape}/{b.shape}, max diff '
                          f'{np.abs(a - b).max() if a.shape == b.shape else "-"}', **sig)
                 break
-    # ---------------------------------------------------------------- facet maps
-    if kind == 'wedge' or dim == 1:
+    # ---------------------------------------------------------------- prisms: no facet maps, but normals from the reference table
+    if kind == 'wedge':
+        rdm = m.elem.refdom
+        Vref = np.asarray(rdm.p, dtype=float)
+        for k in range(min(nc, 4)):
+            P = m.p[:, m.t[:, k]]
+            cenk = P.mean(1)
+            for i, lv in enumerate(rdm.facets):
+                lv = list(dict.fromkeys(int(v) for v in lv))                   # triangular caps are stored with a repeated vertex
+                Yc = Vref[:, lv].mean(1)[:, None]
+                fidx = np.array([m.t2f[i, k]], dtype=np.int32)
+                N = np.asarray(mapping.normals(Yc, np.array([k], dtype=np.int32), fidx, m.t2f))[:, 0, 0]
+                Q = P[:, lv]
+                nrm = np.cross(Q[:, 1] - Q[:, 0], Q[:, 2] - Q[:, 0])
+                nrm = nrm / np.linalg.norm(nrm)
+                if nrm @ (Q.mean(1) - cenk) < 0:
+                    nrm = -nrm
+                if not np.allclose(N, nrm, rtol=0, atol=1e-9):
+                    ctx.fail('normals_outward', f'prism cell {k}, local facet {i}: normal {N.tolist()} instead of the outward unit normal '
+                             f'{nrm.tolist()}', **sig)
+                    return
+        return
+    if dim == 1:
         return
     nf = m.nfacets
     fpicks = [int(k) % nf for k in c['picks']]
